@@ -99,8 +99,9 @@ class C07(Property):
             "(sfv.rt.wfgen, real step classes incl. job pipelines) under the default order and 1 (quick) / 3 (thorough) PRNG interleavings; "
             "one third of the workflows with an injected transformer failure (table-level checks only). Checked per run: dependee id < "
             "depender id on every row, no dangling id, no cycle (DFS), every data token of every port persisted, the edge set (tokens "
-            "identified by port:tag) equal to what the property demands (oracle) and to the Lean model `prov` (driver); job outputs linked "
-            "to their job token and inputs. Additionally 3 (quick) / 12 (thorough) RECOVERY cases of the recovery harness (sfv.rt.recov: "
+            "identified by port:tag) equal to what the property demands (oracle) and to the Lean model `prov` (driver); job pipelines by "
+            "token id: every JobToken depends on exactly the tokens of its own tag on the pipeline's input ports, every job output / "
+            "transferred input on the JobToken of its tag (corpus incl. 2-input pipelines whose ports deliver tags in different orders). Additionally 3 (quick) / 12 (thorough) RECOVERY cases of the recovery harness (sfv.rt.recov: "
             "failed jobs retried through recovery workflows): table-level clauses on the whole database. Non-trivial = workflow whose "
             "run records >= 4 provenance rows.")
     trusted_base = [
